@@ -53,6 +53,8 @@ CheckSchema(e) ==
          /\ V("C17", e, ~Sane(t) \/ ~AllExact(e.tree) \/ PwlEq(P0(t), F, s.dim),
               nm \o " differs from its textbook definition on a non-empty set of inputs (breakpoints and ties included)", "schema/" \o nm \o "/law")
          /\ V("C17", e, ~Sane(t) \/ ~AllExact(e.tree) \/ GridAgrees(e, s.q, F), "evaluate() of " \o nm \o " differs from the textbook value at a grid point", "schema/" \o nm \o "/grid")
+         /\ V("C04", e, ~Sane(t) \/ (NodeDimsOK(t) /\ DecisionRowsOK(t) /\ LeafIffNoChildren(t) /\ Cardinality(OutDims(t)) <= 1),
+              "the predefined tree " \o nm \o " is not well-formed (mixed output dimensions, decision rows, leaf flags)", "schema/" \o nm \o "/wf")
 
 \* cache soundness (C05) on a recorded tree: witnesses (logged at scale WQ) have the tree's dimension and satisfy the closed path conditions
 WQ == 100000
